@@ -3,7 +3,7 @@ sweeps over specification states.  Generators only choose INPUTS (and, for twin 
 experiment is being made); every expectation is computed and checked by the TLA+ side."""
 import random
 
-BOUND = [0, 1, 2, 63, 64, 126, 127]
+BOUND = [0, 1, 2, 5, 6, 63, 64, 126, 127]
 PN_CNS = [6, 38, 96, 97, 98, 99, 100, 101]
 OTHER_CH_STATUS = [128, 144, 160, 192, 208, 224]
 
@@ -87,13 +87,13 @@ def random_plain(rng, kind, n_events, seg=1500, first_id=1):
     return out
 
 
-TIMEOUTS = [0, 1, 5, -1]
+TIMEOUTS = [0, 1, 5, -1, 1000, 2500]
 
 
 def tick_choices(to):
     if to <= 0:
-        return [0, 1, 1, 2, 7]
-    return [0, 1, max(to - 1, 0), to, to + 1, 10 * to]
+        return [0, 1, 1, 2, 7, 999, 1000, 60001]
+    return [0, 1, max(to - 1, 0), to, to + 1, 10 * to, to // 2, 2 * to + 1, 999, 1000, 1001, 1000 + to // 2, 60000 + to]
 
 
 def random_poll(rng, n_events, seg=1500, first_id=1, timeouts=TIMEOUTS):
@@ -104,8 +104,14 @@ def random_poll(rng, n_events, seg=1500, first_id=1, timeouts=TIMEOUTS):
     while left > 0:
         to = rng.choice(timeouts)
         via_default = (to == 0 and rng.random() < 0.3)
-        out.append({"op": "new", "id": iid, "k": "poll", "to": to,
-                    "via": "default" if via_default else "new"})
+        cmd = {"op": "new", "id": iid, "k": "poll", "to": to, "via": "default" if via_default else "new"}
+        r = rng.random()
+        if to < 0 and r < 0.5:
+            cmd["toh"] = -rng.choice([40, 50, 61, 62, 63])      # Duration::from_secs(1 << k): effectively infinite
+        elif to == 1 and r < 0.5:
+            cmd["toh"] = rng.choice([1, 3, 5])                    # 0.5, 1.5, 2.5 ms: not a whole number of ms
+            to = 3                                                # ticks chosen around it
+        out.append(cmd)
         chans = pick_chans(rng)
         tr = Traffic(rng, "poll", chans)
         for _ in range(min(seg, left)):
@@ -129,9 +135,13 @@ def rand_cc14_msg(rng):
     return [rng.randrange(16), rng.randrange(32), v]
 
 
+# parameter numbers with a meaning of their own (RPN 0-6, null function, byte boundaries)
+SPECIAL_NUMBERS = [0, 1, 2, 3, 4, 5, 6, 7, 120, 127, 128, 129, 255, 256, 767, 768, 8192, 16256, 16382, 16383]
+
+
 def rand_pn_msg(rng, kinds=("7", "14", "inc", "dec")):
     k = rng.choice(kinds)
-    num = rng.choice([0, 1, 127, 128, 129, 16256, 16382, 16383]) if rng.random() < 0.4 else rng.randrange(16384)
+    num = rng.choice(SPECIAL_NUMBERS) if rng.random() < 0.4 else rng.randrange(16384)
     reg = rng.randrange(2)
     c = rng.randrange(16)
     if k == "14":
@@ -390,4 +400,127 @@ def twin_time(rng, n_events, to, base_id=500):
             f = impl(rng)
             out.append({"op": "feed", "id": a, "m": m, "f": f})
             out.append({"op": "feed", "id": b, "m": m, "f": f, "tw": 1, "twp": "C13"})
+    return out
+
+
+# ----------------------------------------------------------------------------- systematic value sweeps
+
+def sweep_cc14_values(rng, step=1, first_id=1):
+    """Every (high, low) byte pair of the 14-bit value through the real encoder and a real scanner,
+    on a seeded (channel, controller): catches value-specific slips that random traffic would need
+    luck to hit."""
+    ch, cn = rng.randrange(16), rng.randrange(32)
+    out = [{"op": "new", "id": first_id, "k": "cc14", "to": 0}]
+    for v in range(rng.randrange(step), 16384, step):
+        out.append({"op": "enc14", "id": first_id, "msg": [ch, cn, v], "fac": "raw"})
+    return out
+
+
+def sweep_pn_values(rng, kind, step=1, first_id=1, to=0):
+    """Every parameter number (with a seeded value) and every 14-bit value (with a seeded number)
+    through the real encoder and a real scanner of the given kind (pn: LSB first; poll: both orders,
+    followed by wait + poll)."""
+    out = [{"op": "new", "id": first_id, "k": kind, "to": to}]
+    ch = rng.randrange(16)
+
+    def emit(msg):
+        if kind == "pn":
+            out.append({"op": "encpn", "id": first_id, "msg": msg, "ord": "lsb", "fac": "raw"})
+        else:
+            ord_ = rng.choice(["msb", "lsb"])
+            n = 4 if msg[4] == 1 else 3
+            out.append({"op": "encpn", "id": first_id, "msg": msg, "ord": ord_, "gk": "rtp", "more": 1, "fac": "raw"})
+            out.append({"op": "tick", "id": first_id, "dt": to})
+            out.append({"op": "poll", "id": first_id, "ch": msg[0],
+                        "grp": {"k": "rtp", "i": n + 1, "n": n + 1, "msg": msg, "ord": ord_}})
+
+    # every special parameter number x registered / non-registered x every message form
+    for num in SPECIAL_NUMBERS:
+        for reg in (0, 1):
+          for c2 in (0, 15, 1 + rng.randrange(14)):       # zone manager channels of MPE and one other
+            for form in range(5):
+                if form < 2:
+                    emit([c2, num, rng.choice([0, 127, 128, 5418, 16383, rng.randrange(16384)]), reg, 1, 0])
+                else:
+                    emit([c2, num, rng.choice([0, 42, 127, rng.randrange(128)]), reg, 0, form - 2])
+    for num in range(rng.randrange(step), 16384, step):
+        reg = rng.randrange(2)
+        if rng.random() < 0.5:
+            emit([ch, num, rng.randrange(16384), reg, 1, 0])
+        else:
+            emit([ch, num, rng.randrange(128), reg, 0, rng.randrange(3)])
+    num = rng.randrange(16384)
+    for v in range(rng.randrange(step), 16384, step):
+        emit([ch, num, v, rng.randrange(2), 1, 0])
+    for v in range(128):
+        for dt in range(3):
+            emit([ch, num, v, rng.randrange(2), 0, dt])
+    return out
+
+
+# semantically loaded messages: things a device-aware implementation might special-case
+def loaded_messages(kind, ch):
+    out = []
+    for n in (120, 121, 122, 123, 124, 125, 126, 127, 0, 32, 64):          # channel mode, bank select, sustain
+        out.append([[176 + ch, n, v] for v in (0,)][0])
+        out.append([176 + ch, n, 127])
+    out += [[192 + ch, 0, 0], [224 + ch, 0, 64], [144 + ch, 60, 0], [254, 0, 0], [255, 0, 0], [250, 0, 0], [252, 0, 0]]
+    return out
+
+
+def loaded_sequences(kind, ch):
+    """Complete (N)RPN / 14-bit CC messages with a meaning of their own, as lists of short messages."""
+    seqs = []
+    for num in (0, 1, 2, 5, 6, 16383):
+        for reg in (1, 0):
+            x = [176 + ch, 101 if reg else 99, num // 128]
+            y = [176 + ch, 100 if reg else 98, num % 128]
+            for v in (0, 1, 2, 15, 16, 127):
+                seqs.append([x, y, [176 + ch, 6, v]])
+            seqs.append([x, y, [176 + ch, 6, 1], [176 + ch, 38, 0]])
+            seqs.append([x, y, [176 + ch, 96, 1]])
+    for cn in (0, 1, 6, 7, 10):
+        seqs.append([[176 + ch, cn, 3], [176 + ch, cn + 32, 5]])
+    return seqs
+
+
+def interference_battery(rng, kind, to, per_pair, base_id=100):
+    """C15: for every ordered pair (a, b) of the 16 channels: b holds partial progress, a sends a
+    semantically loaded message or sequence, b completes.  Interleaved scanner vs per-channel scanners."""
+    out = []
+    for a in range(16):
+        for b in range(16):
+            if a == b:
+                continue
+            cat = [[m] for m in loaded_messages(kind, a)] + loaded_sequences(kind, a)
+            for seq in rng.sample(cat, min(per_pair, len(cat))):
+                ids = {a: base_id + 1 + a, b: base_id + 1 + b}
+                out.append({"op": "new", "id": base_id, "k": kind, "to": to})
+                out.append({"op": "new", "id": ids[a], "k": kind, "to": to})
+                out.append({"op": "new", "id": ids[b], "k": kind, "to": to})
+
+                def feed(m):
+                    out.append({"op": "feed", "id": base_id, "m": m})
+                    if m[0] < 240:
+                        out.append({"op": "feed", "id": ids[m[0] % 16], "m": m, "tw": 1, "twp": "C15"})
+
+                if kind == "cc14":
+                    pre = [[176 + b, 7, 9]]
+                    post = [[176 + b, 39, 11], [176 + b, 39, 12]]
+                else:
+                    pre = [[176 + b, 99, 18], [176 + b, 98, 52]] + ([[176 + b, 6, 42]] if rng.random() < 0.5 else [])
+                    post = [[176 + b, 6, 43], [176 + b, 38, 44], [176 + b, 96, 1]]
+                for m in pre:
+                    feed(m)
+                for m in seq:
+                    feed(m)
+                if kind == "poll":
+                    out.append({"op": "tick", "id": -1, "dt": rng.choice([0, to, to + 1, 400, 1000])})
+                for m in post:
+                    feed(m)
+                if kind == "poll":
+                    out.append({"op": "tick", "id": -1, "dt": to + 1})
+                    for c in (a, b):
+                        out.append({"op": "poll", "id": base_id, "ch": c})
+                        out.append({"op": "poll", "id": ids[c], "ch": c, "tw": 1, "twp": "C15"})
     return out
